@@ -769,7 +769,28 @@ func (g *TreeGen) wildArgs(n, depth int) []Arg {
 
 type FileCfg struct {
 	prefixPct, hintPct, anonPct, cgoPct, commentPct, localPct, dotPct, noFormatPct int
+	wildCgo bool // preamble texts gofmt would alter or reject
 	guardHints bool // keep hints inside HintsOk
+}
+
+// genWildPreamble: C text as users paste it — trailing blanks, tabs, carriage returns, indented
+// closers, comment delimiters inside (what gofmt would alter or reject if it sees it)
+func genWildPreamble(r *Rng) string {
+	lines := []string{"#include <a.h>", "int x;", "static int f(void) {", "\treturn 1;", "}", "#cgo LDFLAGS: -lm", "  indented", "trailing   ", "tab\t", "cr\r", "*/ +++ /*", "/* inner */", "// slashes", "", "   */", "/*", "unicode \u00e9\u3000", "a\tb"}
+	var parts []string
+	for i := 0; i < 1+r.Intn(4); i++ {
+		parts = append(parts, pick(r, lines))
+	}
+	t := strings.Join(parts, "\n")
+	switch r.Intn(6) {
+	case 0:
+		t += "\n"
+	case 1:
+		t = "// " + t
+	case 2:
+		t = "/* " + t + " */"
+	}
+	return t
 }
 
 var defaultFileCfg = FileCfg{prefixPct: 25, hintPct: 40, anonPct: 20, cgoPct: 10, commentPct: 20, localPct: 25, dotPct: 15, noFormatPct: 30, guardHints: true}
@@ -872,6 +893,24 @@ func genFileSetup(r *Rng, f int, pool *PathPool, cfg FileCfg) []Op {
 						seen[q] = true
 						kv = append(kv, [2]string{q, genHintName(r)})
 					}
+					// a second key that a "tolerant" normalisation would identify with q: the map
+					// then holds two entries for what the code may treat as one path
+					if r.Chance(25) && q != "" {
+						v := q + "/"
+						switch r.Intn(4) {
+						case 0:
+							v = strings.TrimSuffix(q, "/")
+						case 1:
+							v = strings.ToUpper(q[:1]) + q[1:]
+						case 2:
+							v = q + "/."
+						}
+						if v != "" && v != "C" && !seen[v] {
+							seen[v] = true
+							all = append(all, v)
+							kv = append(kv, [2]string{v, genHintName(r)})
+						}
+					}
 				}
 				ops = append(ops, Op{Kind: OpHintNames, F: f, KV: kv})
 			default:
@@ -893,7 +932,11 @@ func genFileSetup(r *Rng, f int, pool *PathPool, cfg FileCfg) []Op {
 	}
 	if r.Chance(cfg.cgoPct) {
 		for j := 0; j < 1+r.Intn(2); j++ {
-			ops = append(ops, Op{Kind: OpCgo, F: f, Str: []string{pick(r, []string{"#include <stdio.h>", "#include <a.h>\n#include <b.h>", "// raw form", "/* block form */"})}})
+			pre := pick(r, []string{"#include <stdio.h>", "#include <a.h>\n#include <b.h>", "// raw form", "/* block form */"})
+			if cfg.wildCgo && r.Chance(70) {
+				pre = genWildPreamble(r)
+			}
+			ops = append(ops, Op{Kind: OpCgo, F: f, Str: []string{pre}})
 		}
 	}
 	if r.Chance(cfg.commentPct) {
